@@ -16,10 +16,12 @@ from gv.astutil import stmts_of
 from gv.astutil import unparse
 from gv.astutil import walk_body
 from gv.cfg import cfg_of
+from gv.props.shared import accumulated_lists
 from gv.props.shared import unfolded
 from gv.props import describe
 from gv.props.shared import branch_conditions
 from gv.props.shared import conj_literals
+from gv.props.shared import literal_facts
 from gv.report import Ctx
 from gv.report import cname
 
@@ -120,6 +122,32 @@ class BlockTyper:
         return (a[0], b[1])
 
 
+def _deep_copied(func, e: ast.AST) -> ast.AST | None:
+    """The nested dictionary (or row) of which ``e`` is a copy down to the arrays, None when ``e`` is not such a copy.
+
+    ``copy_jacs(src)`` / ``deepcopy(src)``; ``{k: v.copy() for k, v in src.items()}`` and
+    ``{k: src[k].copy() for k in src}`` (no filter: every block is taken over).
+    """
+    if isinstance(e, ast.Call) and (last_attr(e) == "copy_jacs" or (dotted(e.func) or "").split(".")[-1] == "deepcopy") and len(e.args) == 1 and not e.keywords:
+        return e.args[0]
+    if isinstance(e, ast.DictComp) and len(e.generators) == 1 and not e.generators[0].ifs:
+        g = e.generators[0]
+        v = e.value
+        copied = v.func.value if isinstance(v, ast.Call) and isinstance(v.func, ast.Attribute) and v.func.attr == "copy" and not v.args else (v.args[0] if isinstance(v, ast.Call) and (dotted(v.func) or "").split(".")[-1] == "deepcopy" and len(v.args) == 1 else None)
+        if copied is None:
+            return None
+        if isinstance(g.target, ast.Tuple) and len(g.target.elts) == 2 and isinstance(g.iter, ast.Call) and last_attr(g.iter) == "items" and not g.iter.args:
+            if norm_stmt(e.key) == norm_stmt(g.target.elts[0]) and norm_stmt(copied) == norm_stmt(g.target.elts[1]):
+                return g.iter.func.value
+            return None
+        if isinstance(g.target, ast.Name) and norm_stmt(e.key) == g.target.id and isinstance(copied, ast.Subscript) and norm_stmt(copied.slice) == g.target.id:
+            src = g.iter.args[0] if isinstance(g.iter, ast.Call) and dotted(g.iter.func) in ("list", "tuple", "sorted") and len(g.iter.args) == 1 else g.iter
+            if isinstance(src, ast.Call) and last_attr(src) == "keys":
+                src = src.func.value
+            return copied.value if norm_stmt(src) == norm_stmt(copied.value) else None
+    return None
+
+
 def check_reverse_chain_rule(ctx: Ctx) -> None:
     f = ctx.index.method(CH, "MDOChain", "reverse_chain_rule")
     con = cname(CH, "MDOChain", "reverse_chain_rule")
@@ -148,25 +176,25 @@ def check_reverse_chain_rule(ctx: Ctx) -> None:
         got = bt.type_of(s.value)
         ctx.ob("9.1-store-key", con, got == want, f"a block of keys {got} is stored at self.jac[{want[0]}][{want[1]}]", node=s, slots={"value": str(got), "slot": str(want)})
         n = cfg.node_of(s)
-        lits = []
+        # what is known, where the store runs, about "the block [o][i] already exists"
+        row_txt = f"self.jac[{want[0]}]"
+        known, txt_pos, txt_neg = set(), set(), set()
         for t, v in branch_conditions(cfg, n):
             if cfg.kind[t] != "test":
                 continue
-            cl = conj_literals(cfg.ast[t].test)
-            if v:
-                lits += cl
-            elif len(cl) == 1:
-                lits.append((not cl[0][0], cl[0][1]))
-        txt_pos = {norm_stmt(e) for p, e in lits if p}
-        txt_neg = {norm_stmt(e) for p, e in lits if not p}
-        exists_txt = f"{want[1]} in self.jac[{want[0]}]"
+            for holds, e in _known_literals(cfg.ast[t].test, v):
+                (txt_pos if holds else txt_neg).add(norm_stmt(e))
+                cp = compare_parts(e)
+                if cp and cp[1] in (ast.In, ast.NotIn) and norm_stmt(cp[0]) == want[1] and norm_stmt(cp[2]) in (row_txt, row_txt + ".keys()"):
+                    known.add((cp[1] is ast.In) == holds)
+        exists = known.pop() if len(known) == 1 else None
         accumulates = isinstance(s, ast.AugAssign) or (isinstance(s.value, ast.BinOp) and isinstance(s.value.op, ast.Add) and any(isinstance(x, ast.Subscript) and norm_stmt(x) == norm_stmt(tgt) for x in ast.walk(s.value)))
         if accumulates:
-            ctx.ob("9.1-accumulate", con, exists_txt in txt_pos, "a contribution is ADDED to the block exactly when the block already exists (whatever the inner variable: the blocks w.r.t. the variables computed by the discipline have been consumed before)", node=s, slots={"conditions": sorted(txt_pos)})
+            ctx.ob("9.1-accumulate", con, exists is True, "a contribution is ADDED to the block exactly when the block already exists (whatever the inner variable: the blocks w.r.t. the variables computed by the discipline have been consumed before)", node=s, slots={"conditions": sorted(txt_pos)})
             if isinstance(s, ast.AugAssign):
                 ctx.ob("9.1-accumulate", con, isinstance(s.op, ast.Add), "contributions through different inner variables must be summed", node=s, stmt=f"sum: {norm_stmt(s, 70)}")
         else:
-            ctx.ob("9.1-accumulate", con, exists_txt in txt_neg, "a plain store is only right where the block does not exist yet: elsewhere it discards the contributions of the other paths", node=s, slots={"conditions": sorted(txt_pos), "negated": sorted(txt_neg)})
+            ctx.ob("9.1-accumulate", con, exists is False, "a plain store is only right where the block does not exist yet: elsewhere it discards the contributions of the other paths", node=s, slots={"conditions": sorted(txt_pos), "negated": sorted(txt_neg)})
     # the blocks w.r.t. the variables the discipline computes are consumed (removed from the row) before composing
     pops = [c for c in walk_body(f) if isinstance(c, ast.Call) and last_attr(c) == "pop" and isinstance(c.func.value, ast.Subscript) and dotted(c.func.value.value) == "self.jac"]
     dels = [d for d in stmts_of(f) if isinstance(d, ast.Delete) and any(isinstance(t_, ast.Subscript) and isinstance(t_.value, ast.Subscript) and dotted(t_.value.value) == "self.jac" for t_ in d.targets)]
@@ -180,8 +208,8 @@ def check_reverse_chain_rule(ctx: Ctx) -> None:
     # 9.2 ownership
     whole = [s for s in stmts_of(f) if isinstance(s, ast.Assign) and isinstance(s.targets[0], ast.Subscript) and dotted(s.targets[0].value) == "self.jac"]
     ctx.need(len(whole) == 1, "reverse_chain_rule: initialisation of a new output row not found")
-    v = whole[0].value
-    ok = isinstance(v, ast.Call) and last_attr(v) == "copy_jacs" and v.args and isinstance(v.args[0], ast.Subscript) and dotted(v.args[0].value) == "discipline.jac" and norm_stmt(v.args[0].slice) == norm_stmt(whole[0].targets[0].slice)
+    srcs = [_deep_copied(f, a_) for a_ in (unfolded(f, whole[0].value) or [whole[0].value])]
+    ok = bool(srcs) and all(isinstance(x, ast.Subscript) and dotted(x.value) == "discipline.jac" and norm_stmt(x.slice) == norm_stmt(whole[0].targets[0].slice) for x in srcs)
     ctx.ob("9.2-copy", con, ok, "a discipline's Jacobian row taken over by the chain must be copied (copy_jacs): later accumulations (+=) would otherwise modify the discipline's own Jacobian", node=whole[0])
     # the linearisation precedes the use
     lin = [c for c in walk_body(f) if isinstance(c, ast.Call) and norm_stmt(c.func) == "discipline.linearize"]
@@ -199,23 +227,123 @@ def check_reverse_chain_rule(ctx: Ctx) -> None:
     ctx.floor("9.1-product", 2)
 
 
+def _keys_of(e: ast.AST) -> str | None:
+    """Text of D when ``e`` enumerates the keys of the dictionary D: ``D``, ``D.keys()``, ``list/tuple/set/sorted`` of them."""
+    while isinstance(e, ast.Call) and dotted(e.func) in ("list", "tuple", "set", "frozenset", "sorted") and len(e.args) == 1 and not e.keywords:
+        e = e.args[0]
+    if isinstance(e, ast.Call) and last_attr(e) == "keys" and not e.args and isinstance(e.func, ast.Attribute):
+        e = e.func.value
+    return norm_stmt(e) if isinstance(e, (ast.Name, ast.Attribute, ast.Subscript)) else None
+
+
+def _removes_unrequested(f, cfg, d: ast.Delete) -> bool:
+    """``del D[k]`` runs for every key k of D that is not in ``input_names`` and for no other: either all the keys of D
+    are visited and the removal is guarded by ``k not in input_names`` alone, or the keys visited are already
+    ``keys(D) - input_names`` (set difference or filtering comprehension) and the removal is not guarded."""
+    tgt = d.targets[0]
+    if len(d.targets) != 1 or not isinstance(tgt, ast.Subscript) or not isinstance(tgt.slice, ast.Name):
+        return False
+    d_txt, k = norm_stmt(tgt.value), tgt.slice.id
+    loops = [lp for lp in stmts_of(f) if isinstance(lp, ast.For) and isinstance(lp.target, ast.Name) and lp.target.id == k and any(x is d for x in ast.walk(lp))]
+    if len(loops) != 1:
+        return False
+    lp = loops[0]
+    requested = ("input_names", "set(input_names)", "frozenset(input_names)")
+    guarded = False
+    for t, v in branch_conditions(cfg, cfg.node_of(d)):
+        if cfg.kind[t] != "test" or not any(x is cfg.ast[t] for x in ast.walk(lp)):
+            continue
+        for holds, e in _known_literals(cfg.ast[t].test, v):
+            cp = compare_parts(e)
+            if cp and cp[1] in (ast.In, ast.NotIn) and norm_stmt(cp[0]) == k and norm_stmt(cp[2]) in requested and (cp[1] is ast.NotIn) == holds:
+                guarded = True
+            else:
+                return False  # another restriction: some unrequested blocks would stay (or requested ones go)
+    n_all = n_filtered = 0
+    alts = unfolded(f, lp.iter) or [lp.iter]
+    for it in alts:
+        if isinstance(it, ast.Name):
+            # a snapshot of the keys taken before the loop (the removals make it opaque for the unfolding)
+            defs = [s for s in stmts_of(f) if isinstance(s, ast.Assign) and any(isinstance(t, ast.Name) and t.id == it.id for t in s.targets)]
+            if len(defs) == 1 and len(defs[0].targets) == 1 and not any(x is defs[0] for x in ast.walk(lp)) and cfg.dominates(cfg.node_of(defs[0]), cfg.node_of(lp)):
+                it = defs[0].value
+        while isinstance(it, ast.Call) and dotted(it.func) in ("list", "tuple", "sorted") and len(it.args) == 1 and not it.keywords:
+            it = it.args[0]
+        if isinstance(it, ast.BinOp) and isinstance(it.op, ast.Sub) and _keys_of(it.left) == d_txt and norm_stmt(it.right) in requested:
+            n_filtered += 1
+        elif isinstance(it, ast.Call) and last_attr(it) == "difference" and len(it.args) == 1 and _keys_of(it.func.value) == d_txt and norm_stmt(it.args[0]) in requested:
+            n_filtered += 1
+        elif isinstance(it, (ast.ListComp, ast.SetComp, ast.GeneratorExp)) and len(it.generators) == 1 and isinstance(it.generators[0].target, ast.Name) and norm_stmt(it.elt) == it.generators[0].target.id and _keys_of(it.generators[0].iter) == d_txt:
+            g = it.generators[0]
+            lits = [l_ for c in g.ifs for l_ in conj_literals(c)]
+            cps = [(pol, compare_parts(e)) for pol, e in lits]
+            if lits and all(cp and cp[1] in (ast.In, ast.NotIn) and norm_stmt(cp[0]) == g.target.id and norm_stmt(cp[2]) in requested and (cp[1] is ast.NotIn) == pol for pol, cp in cps):
+                n_filtered += 1
+            elif not lits:
+                n_all += 1
+        elif _keys_of(it) == d_txt:
+            n_all += 1
+    return (n_all == len(alts) and guarded) or (n_filtered == len(alts) and not guarded) or (n_filtered == len(alts) and guarded)
+
+
+class _NotASelection(Exception):
+    pass
+
+
+def _eval_disciplines(e: ast.AST, seq: list):
+    """Value of an expression selecting from ``self.disciplines`` (slices, indices, reversed/list/tuple, len and
+    integer arithmetic) when ``self.disciplines`` is ``seq``."""
+    if dotted(e) == "self.disciplines":
+        return list(seq)
+    if isinstance(e, ast.Constant) and (e.value is None or type(e.value) is int):
+        return e.value
+    if isinstance(e, ast.UnaryOp) and isinstance(e.op, ast.USub):
+        v = _eval_disciplines(e.operand, seq)
+        if type(v) is int:
+            return -v
+    if isinstance(e, ast.BinOp) and isinstance(e.op, (ast.Add, ast.Sub)):
+        a, b = _eval_disciplines(e.left, seq), _eval_disciplines(e.right, seq)
+        if type(a) is int and type(b) is int:
+            return a + b if isinstance(e.op, ast.Add) else a - b
+    if isinstance(e, ast.Call) and not e.keywords and len(e.args) == 1 and dotted(e.func) in ("reversed", "list", "tuple", "len"):
+        v = _eval_disciplines(e.args[0], seq)
+        if isinstance(v, list):
+            return {"reversed": lambda: v[::-1], "list": lambda: v, "tuple": lambda: v, "len": lambda: len(v)}[dotted(e.func)]()
+    if isinstance(e, ast.Subscript):
+        v = _eval_disciplines(e.value, seq)
+        if isinstance(v, list):
+            if isinstance(e.slice, ast.Slice):
+                parts = [None if x is None else _eval_disciplines(x, seq) for x in (e.slice.lower, e.slice.upper, e.slice.step)]
+                if all(x is None or type(x) is int for x in parts) and parts[2] != 0:
+                    return v[slice(*parts)]
+            else:
+                i = _eval_disciplines(e.slice, seq)
+                if type(i) is int:
+                    return v[i]
+    raise _NotASelection(norm_stmt(e))
+
+
 def check_compute_jacobian(ctx: Ctx) -> None:
     f = ctx.index.method(CH, "MDOChain", "_compute_jacobian")
     con = cname(CH, "MDOChain", "_compute_jacobian")
     cfg = cfg_of(f)
     init = [s for s in stmts_of(f) if isinstance(s, ast.Assign) and dotted(s.targets[0]) == "self.jac"]
-    ok = len(init) == 1 and isinstance(init[0].value, ast.Call) and last_attr(init[0].value) == "copy_jacs"
+    ok = len(init) == 1 and isinstance(init[0].value, ast.Call) and _deep_copied(f, init[0].value) is not None
     ctx.ob("9.2-copy", con, ok, "the chain's Jacobian must start from a copy of the last discipline's Jacobian", node=(init or [f])[0])
-    last = [s for s in stmts_of(f) if isinstance(s, ast.Assign) and isinstance(s.value, ast.Subscript) and dotted(s.value.value) == "self.disciplines" and not isinstance(s.value.slice, ast.Slice)]
-    ok = len(last) == 1 and isinstance(last[0].value.slice, ast.UnaryOp) and const_value(last[0].value.slice.operand) == 1
-    ctx.ob("9.1-reverse-order", con, ok, "reverse accumulation starts from the last discipline of the chain", node=(last or [f])[0])
-    rem = [s for s in stmts_of(f) if isinstance(s, ast.Assign) and isinstance(s.value, ast.Subscript) and dotted(s.value.value) == "self.disciplines" and isinstance(s.value.slice, ast.Slice)]
+    # which disciplines, in which order: the expressions are evaluated on chains of 1 to 6 disciplines, so that any
+    # spelling by slices / reversed / list is understood
+    def denotes(e: ast.AST, expected) -> bool:
+        alts = unfolded(f, e) or [e]
+        try:
+            return bool(alts) and all(_eval_disciplines(a, list(range(n_))) == expected(n_) for a in alts for n_ in range(1, 7))
+        except (_NotASelection, IndexError):
+            return False
+
+    src = _deep_copied(f, init[0].value) if len(init) == 1 else None
+    ok = isinstance(src, ast.Attribute) and src.attr == "jac" and denotes(src.value, lambda n_: n_ - 1)
+    ctx.ob("9.1-reverse-order", con, ok, "reverse accumulation starts from the last discipline of the chain", node=(init or [f])[0])
     loops = [s for s in stmts_of(f) if isinstance(s, ast.For) and any(isinstance(c, ast.Call) and last_attr(c) == "reverse_chain_rule" for c in ast.walk(s))]
-    ok = len(rem) == 1 and rem[0].value.slice.lower is None and isinstance(rem[0].value.slice.upper, ast.UnaryOp) and const_value(rem[0].value.slice.upper.operand) == 1 and len(loops) == 1
-    if ok:
-        it = loops[0].iter
-        rv = dotted(rem[0].targets[0])
-        ok = (isinstance(it, ast.Subscript) and dotted(it.value) == rv and isinstance(it.slice, ast.Slice) and isinstance(it.slice.step, ast.UnaryOp)) or (isinstance(it, ast.Call) and dotted(it.func) == "reversed" and dotted(it.args[0]) == rv)
+    ok = len(loops) == 1 and denotes(loops[0].iter, lambda n_: list(range(n_ - 2, -1, -1)))
     ctx.ob("9.1-reverse-order", con, ok, "the remaining disciplines must be composed from the last to the first", node=(loops or [f])[0])
     call = [c for c in walk_body(f) if isinstance(c, ast.Call) and last_attr(c) == "reverse_chain_rule"]
     ok = len(call) == 1 and dotted(call[0].args[0]) == "output_names" and loops and dotted(call[0].args[1]) == dotted(loops[0].target)
@@ -224,8 +352,7 @@ def check_compute_jacobian(ctx: Ctx) -> None:
     dels = [s for s in stmts_of(f) if isinstance(s, ast.Delete)]
     ok = len(dels) == 1
     if ok:
-        conds = [(t, v) for t, v in branch_conditions(cfg, cfg.node_of(dels[0])) if cfg.kind[t] == "test"]
-        ok = len(conds) == 1 and conds[0][1] and norm_stmt(cfg.ast[conds[0][0]].test) == f"{dotted(dels[0].targets[0].slice)} not in input_names"
+        ok = _removes_unrequested(f, cfg, dels[0])
     ctx.ob("9.3-remove", con, ok, "blocks with respect to names that are not requested inputs must be removed (and only those)", node=(dels or [f])[0])
     _check_zero_fill(ctx, f, con, after=[cfg.node_of(d) for d in dels] + [cfg.node_of(c) for c in call])
     g = ctx.index.method(PC, "MDOParallelChain", "_compute_jacobian")
@@ -247,7 +374,7 @@ def check_compute_jacobian(ctx: Ctx) -> None:
         if ok:
             oname, ojac = (dotted(e) for e in inner[0].target.elts)
             v = news[0].value
-            fresh = (isinstance(v, ast.Call) and dotted(v.func) == "dict" and len(v.args) == 1 and dotted(v.args[0]) == ojac) or (isinstance(v, ast.Call) and last_attr(v) == "copy" and dotted(v.func.value) == ojac) or (isinstance(v, ast.Dict) and len(v.keys) == 1 and v.keys[0] is None and dotted(v.values[0]) == ojac)
+            fresh = (isinstance(v, ast.Call) and dotted(v.func) == "dict" and len(v.args) == 1 and dotted(v.args[0]) == ojac) or (isinstance(v, ast.Call) and last_attr(v) == "copy" and dotted(v.func.value) == ojac) or (isinstance(v, ast.Dict) and len(v.keys) == 1 and v.keys[0] is None and dotted(v.values[0]) == ojac) or (isinstance(v, ast.DictComp) and len(v.generators) == 1 and not v.generators[0].ifs and isinstance(v.generators[0].target, ast.Tuple) and len(v.generators[0].target.elts) == 2 and norm_stmt(v.generators[0].iter) == f"{ojac}.items()" and [norm_stmt(v.key), norm_stmt(v.value)] == [norm_stmt(x) for x in v.generators[0].target.elts]) or (_deep_copied(g, v) is not None and dotted(_deep_copied(g, v)) == ojac)
             # the only condition allowed on the replacement is "this discipline has a Jacobian" (a failed one has None)
             guards = [norm_stmt(cg.ast[tv[0]].test) + ("" if tv[1] else " [false]") for tv in branch_conditions(cg, cg.node_of(news[0])) if cg.kind[tv[0]] == "test"]
             jv = dotted(jl[0].target)
@@ -260,9 +387,30 @@ def check_compute_jacobian(ctx: Ctx) -> None:
     ok = len(st) == 1
     if ok:
         want = (norm_stmt(st[0].targets[0].value.slice), norm_stmt(st[0].targets[0].slice))
-        comp = [n for n in walk_body(h) if isinstance(n, ast.ListComp)]
-        ok = len(comp) == 1 and isinstance(comp[0].elt, ast.Subscript) and isinstance(comp[0].elt.value, ast.Subscript) and (norm_stmt(comp[0].elt.value.slice), norm_stmt(comp[0].elt.slice)) == want and isinstance(st[0].value, ast.Call) and dotted(st[0].value.func) in ("sum", "np_sum")
+        alts = unfolded(h, st[0].value) or [st[0].value]
+        ok = all(_sums_blocks(h, a, want) for a in alts)
     ctx.ob("9.1-additive", conh, ok, "the additive chain must sum, for each (output, input), the disciplines' blocks of the same (output, input)", node=(st or [h])[0])
+
+
+def _sums_blocks(func, e: ast.AST, want: tuple[str, str]) -> bool:
+    """``e`` is ``sum(<blocks>)`` where every element of <blocks> is a block ``X[o][i]`` with ``(o, i) == want``.
+
+    <blocks> may be a list/generator comprehension (possibly wrapped in ``list``/``tuple``) or a local list built by a
+    loop with ``append`` (the locals have been unfolded by the caller).
+    """
+    if not (isinstance(e, ast.Call) and dotted(e.func) in ("sum", "np_sum", "np.sum", "numpy.sum") and len(e.args) == 1 and not e.keywords):
+        return False
+    it = e.args[0]
+    while isinstance(it, ast.Call) and dotted(it.func) in ("list", "tuple") and len(it.args) == 1 and not it.keywords:
+        it = it.args[0]
+    if isinstance(it, (ast.ListComp, ast.GeneratorExp)):
+        elements = [it.elt] if len(it.generators) == 1 else []
+    elif isinstance(it, ast.Name):
+        recs = [r for r in accumulated_lists(func) if r["name"] == it.id]
+        elements = list(recs[0]["elements"]) if len(recs) == 1 else []
+    else:
+        elements = []
+    return bool(elements) and all(isinstance(x, ast.Subscript) and isinstance(x.value, ast.Subscript) and (norm_stmt(x.value.slice), norm_stmt(x.slice)) == want for x in elements)
 
 
 def _check_zero_fill(ctx: Ctx, f, con, after) -> None:
@@ -315,56 +463,203 @@ def check_init_jacobian(ctx: Ctx) -> None:
     fill = [s for s in stores if any(v and norm_stmt(cfg.ast[t].test) == "fill_missing_keys" for t, v in branch_conditions(cfg, cfg.node_of(s)) if cfg.kind[t] == "test")]
     ok = len(fill) == 1
     if ok:
-        conds = [norm_stmt(cfg.ast[t].test) for t, v in branch_conditions(cfg, cfg.node_of(fill[0])) if v and cfg.kind[t] == "test"]
-        ok = any(c.endswith("is None") for c in conds)
+        # the store runs only where the block is known to be missing: `D.get(k) is None` (possibly through a local) or
+        # `k not in D`, for the very D[k] that is stored
+        tgt = fill[0].targets[0]
+        d_txt, k_txt = norm_stmt(tgt.value), norm_stmt(tgt.slice)
+
+        def reads_block(x: ast.AST) -> bool:
+            alts = unfolded(f, x) or [x]
+            return all(isinstance(a, ast.Call) and last_attr(a) == "get" and norm_stmt(a.func.value) == d_txt and a.args and norm_stmt(a.args[0]) == k_txt and (len(a.args) == 1 or const_value(a.args[1], 0) is None) and not a.keywords for a in alts)
+
+        missing = False
+        for t, v in branch_conditions(cfg, cfg.node_of(fill[0])):
+            if cfg.kind[t] != "test":
+                continue
+            for holds, e in _known_literals(cfg.ast[t].test, v):
+                cp = compare_parts(e)
+                if not cp:
+                    continue
+                if cp[1] in (ast.Is, ast.IsNot, ast.Eq, ast.NotEq) and isinstance(cp[2], ast.Constant) and cp[2].value is None and reads_block(cp[0]):
+                    missing = missing or ((cp[1] in (ast.Is, ast.Eq)) == holds)
+                elif cp[1] in (ast.In, ast.NotIn) and norm_stmt(cp[0]) == k_txt and norm_stmt(cp[2]) in (d_txt, d_txt + ".keys()"):
+                    missing = missing or ((cp[1] is ast.NotIn) == holds)
+        ok = missing
     ctx.ob("9.3-keep-existing", con, ok, "with fill_missing_keys only the missing blocks may be created: an existing block must not be overwritten by zeros", node=(fill or stores)[0])
+
+
+def _known_literals(test: ast.AST, value: bool) -> list[tuple[bool, ast.AST]]:
+    """(truth value, expression) of the plain conditions known once ``test`` evaluated to ``value``:
+    every conjunct of ``a and not b`` on its true side, every disjunct of ``a or b`` (negated) on its false side."""
+    if value:
+        return conj_literals(test)
+    if isinstance(test, ast.BoolOp) and isinstance(test.op, ast.Or):
+        out = []
+        for v in test.values:
+            out += _known_literals(v, False)
+        return out
+    if isinstance(test, ast.UnaryOp) and isinstance(test.op, ast.Not):
+        return _known_literals(test.operand, True)
+    if isinstance(test, ast.BoolOp):
+        return []
+    return [(False, test)]
+
+
+def _eval_flag(e: ast.AST, env: dict):
+    """Value of a small integer/boolean expression over the names of ``env`` (constants, not, int/bool, + - and
+    conditional expressions)."""
+    if isinstance(e, ast.Constant) and type(e.value) in (int, bool):
+        return e.value
+    if isinstance(e, ast.Name) and e.id in env:
+        return env[e.id]
+    if isinstance(e, ast.UnaryOp) and isinstance(e.op, ast.Not):
+        return not _eval_flag(e.operand, env)
+    if isinstance(e, ast.UnaryOp) and isinstance(e.op, ast.USub):
+        return -_eval_flag(e.operand, env)
+    if isinstance(e, ast.Call) and dotted(e.func) in ("int", "bool") and len(e.args) == 1 and not e.keywords:
+        v = _eval_flag(e.args[0], env)
+        return int(v) if dotted(e.func) == "int" else bool(v)
+    if isinstance(e, ast.BinOp) and isinstance(e.op, (ast.Add, ast.Sub)):
+        a, b = _eval_flag(e.left, env), _eval_flag(e.right, env)
+        return a + b if isinstance(e.op, ast.Add) else a - b
+    if isinstance(e, ast.IfExp):
+        return _eval_flag(e.body if _eval_flag(e.test, env) else e.orelse, env)
+    raise _NotASelection(norm_stmt(e))
+
+
+_GROWING = {"update", "add", "extend", "append"}
+_MUTATORS = _GROWING | {"pop", "clear", "remove", "insert", "sort", "setdefault", "discard", "popitem", "reverse", "intersection_update", "difference_update", "symmetric_difference_update", "__delitem__"}
+
+
+def _extends(func, e: ast.AST, attr: str, depth: int = 0) -> bool:
+    """``e`` contains every name of ``self.<attr>``: a union (``.union`` / ``|``) or a concatenation one side of
+    which is (a collection made from) ``self.<attr>``, possibly wrapped in list/set/sorted/tuple, or a local collection
+    initialised from ``self.<attr>`` and only grown afterwards (update / add / extend / append / ``|=`` / ``+=``)."""
+
+    def holds_old(x: ast.AST) -> bool:
+        while isinstance(x, ast.Call) and dotted(x.func) in ("list", "set", "tuple", "sorted", "frozenset") and len(x.args) == 1 and not x.keywords:
+            x = x.args[0]
+        if isinstance(x, ast.Starred):
+            x = x.value
+        return (isinstance(x, ast.Attribute) and x.attr == attr and dotted(x.value) == "self") or _extends(func, x, attr, depth + 1)
+
+    if depth > 4:
+        return False
+    while isinstance(e, ast.Call) and dotted(e.func) in ("list", "set", "tuple", "sorted", "frozenset") and len(e.args) == 1 and not e.keywords:
+        e = e.args[0]
+    if isinstance(e, ast.Call) and last_attr(e) == "union" and isinstance(e.func, ast.Attribute):
+        return holds_old(e.func.value) or any(holds_old(x) for x in e.args)
+    if isinstance(e, ast.BinOp) and isinstance(e.op, (ast.BitOr, ast.Add)):
+        return holds_old(e.left) or holds_old(e.right)
+    if isinstance(e, (ast.List, ast.Set, ast.Tuple)):
+        return any(isinstance(x, ast.Starred) and holds_old(x) for x in e.elts)
+    if isinstance(e, ast.Name):
+        defs = [s for s in stmts_of(func) if isinstance(s, (ast.Assign, ast.AugAssign, ast.AnnAssign)) and any(isinstance(t, ast.Name) and t.id == e.id for t in (s.targets if isinstance(s, ast.Assign) else [s.target]))]
+        plain = [s for s in defs if isinstance(s, ast.Assign)]
+        if len(plain) != 1 or len(plain[0].targets) != 1 or not holds_old(plain[0].value):
+            return False
+        if any(not (isinstance(s, ast.AugAssign) and isinstance(s.op, (ast.BitOr, ast.Add))) for s in defs if s is not plain[0]):
+            return False
+        calls = [c for c in walk_body(func) if isinstance(c, ast.Call) and isinstance(c.func, ast.Attribute) and isinstance(c.func.value, ast.Name) and c.func.value.id == e.id and c.func.attr in _MUTATORS]
+        return all(c.func.attr in _GROWING for c in calls)
+    return False
 
 
 def check_cache_and_traversal(ctx: Ctx) -> None:
     f = ctx.index.method(CH, "MDOChain", "_compute_diff_in_outs")
     con = cname(CH, "MDOChain", "_compute_diff_in_outs")
     cfg = cfg_of(f)
-    key = [s for s in stmts_of(f) if isinstance(s, ast.Assign) and isinstance(s.value, ast.Tuple) and sorted(norm_stmt(e) for e in s.value.elts) == ["set(input_names)", "set(output_names)"]]
-    tests = [n for n in cfg.nodes(lambda k: cfg.kind[k] == "test") if "_last_diff_inouts" in norm_stmt(cfg.ast[n].test)]
-    ok = len(key) == 1 and len(tests) == 1
+    # The request key: (set(input_names), set(output_names)), written in place or through locals.
+    def key_texts(e):
+        alts = unfolded(f, e) or [e]
+        ok_ = all(isinstance(a, ast.Tuple) and sorted(norm_stmt(x) for x in a.elts) in (["set(input_names)", "set(output_names)"], ["frozenset(input_names)", "frozenset(output_names)"]) for a in alts)
+        return {norm_stmt(a) for a in alts} if ok_ else None
+
+    key = [s for s in stmts_of(f) if isinstance(s, ast.Assign) and isinstance(s.value, ast.Tuple) and key_texts(s.value)]
+    trav = [c for c in walk_body(f) if isinstance(c, ast.Call) and dotted(c.func) == "traverse_add_diff_io"]
+    upd = [s for s in stmts_of(f) if isinstance(s, ast.Assign) and any(dotted(t) == "self._last_diff_inouts" for t in s.targets)]
+    ok = len(trav) == 1 and [dotted(a) for a in trav[0].args[1:3]] == ["input_names", "output_names"]
     if ok:
-        kv = dotted(key[0].targets[0])
-        cp = compare_parts(cfg.ast[tests[0]].test)
-        ok = cp[1] is ast.NotEq and {dotted(cp[0]), dotted(cp[2])} == {"self._last_diff_inouts", kv}
-        upd = [s for s in stmts_of(f) if isinstance(s, ast.Assign) and dotted(s.targets[0]) == "self._last_diff_inouts"]
-        trav = [c for c in walk_body(f) if isinstance(c, ast.Call) and dotted(c.func) == "traverse_add_diff_io"]
-        ok = ok and len(upd) == 1 and dotted(upd[0].value) == kv and cfg.under_branch(cfg.node_of(upd[0]), tests[0], True) and len(trav) == 1 and cfg.under_branch(cfg.node_of(trav[0]), tests[0], True) and [dotted(a) for a in trav[0].args[1:3]] == ["input_names", "output_names"]
+        tn = cfg.node_of(trav[0])
+        # branches on which the request is known to EQUAL the last one: `last == key` true, `last != key` false
+        same, keys = set(), set()
+        for n in cfg.nodes(lambda k: cfg.kind[k] == "test"):
+            for value in (True, False):
+                for holds, e in _known_literals(cfg.ast[n].test, value):
+                    cp = compare_parts(e)
+                    if not cp or cp[1] not in (ast.Eq, ast.NotEq):
+                        continue
+                    other = [x for x in (cp[0], cp[2]) if dotted(x) != "self._last_diff_inouts"]
+                    if len(other) != 1:
+                        continue
+                    kt = key_texts(other[0])
+                    equal = (cp[1] is ast.Eq) == holds
+                    if kt and equal and (n, value) in cfg.branch:
+                        same.add(cfg.branch[(n, value)])
+                        keys |= kt
+        # the traversal is skipped only where the whole request equals the last one (no cache at all: never skipped)
+        ok = cfg.path(cfg.entry, cfg.exit, avoid={tn} | same) is None
+        if same:
+            # ... and the remembered request is the one just traversed
+            un = [cfg.node_of(u) for u in upd]
+            ok = ok and bool(upd) and all((key_texts(u.value) or {"?"}) <= keys for u in upd) and (cfg.must_pass(tn, un) or any(cfg.dominates(u_, tn) for u_ in un))
+            # ... and is remembered after having been compared, not before
+            ok = ok and not any(cfg.reachable(u_, cfg.branch_of[b][0]) for u_ in un for b in same)
     ctx.ob("9.4-cache-key", con, ok, "the traversal must be redone whenever (set(input_names), set(output_names)) differs from the last request, and the key updated with it", node=(key or [f])[0])
     # 9.5 slots
     g = ctx.index.func(CR, "_bfs_one_way_diff_io")
     cong = cname(CR, None, "_bfs_one_way_diff_io")
     cg = cfg_of(g)
-    asg = {}
-    for s in stmts_of(g):
-        if isinstance(s, ast.Assign) and dotted(s.targets[0]) in ("inputs_source_edge_index", "outputs_dest_edge_index") and isinstance(s.value, ast.Constant):
-            conds = [(t, v) for t, v in branch_conditions(cg, cg.node_of(s)) if cg.kind[t] == "test" and norm_stmt(cg.ast[t].test) == "reverse"]
-            if len(conds) == 1:
-                asg[(dotted(s.targets[0]), conds[0][1])] = s.value.value
-    want = {("inputs_source_edge_index", True): 1, ("outputs_dest_edge_index", True): 0, ("inputs_source_edge_index", False): 0, ("outputs_dest_edge_index", False): 1}
-    ctx.ob("9.5-slots", cong, asg == want, f"slot indices of (inputs, outputs): forward traversal (0, 1), reverse traversal (1, 0); found {asg}", node=g, stmt="slot indices per direction")
+    # the slot each extension writes, per direction: the slot expression is unfolded in the function specialised on
+    # `reverse` and evaluated, so that constants per branch, int(reverse), 1 - other ... are all understood
+    ext = [c for c in walk_body(g) if isinstance(c, ast.Call) and last_attr(c) == "extend" and isinstance(c.func.value, ast.Subscript)]
+    ctx.need(len(ext) == 2, "_bfs_one_way_diff_io: the two slot extensions were not found")
+
+    def slot_value(c: ast.Call, rev: bool):
+        alts = unfolded(g, c, facts={"reverse": rev}, get=lambda c_: c_.func.value.slice if isinstance(c_, ast.Call) else None) or []
+        vals = set()
+        for a in alts:
+            try:
+                vals.add(int(_eval_flag(a, {"reverse": rev})))
+            except _NotASelection:
+                return None
+        return vals.pop() if len(vals) == 1 else None
+
+    slots = {id(c): (slot_value(c, False), slot_value(c, True)) for c in ext}
+    asg = sorted(slots.values(), key=str)
+    ctx.ob("9.5-slots", cong, asg == [(0, 1), (1, 0)], f"slot indices of (inputs, outputs): forward traversal (0, 1), reverse traversal (1, 0); found (forward, reverse) slots of the two extensions {asg}", node=g, stmt="slot indices per direction")
     rv = [s for s in stmts_of(g) if isinstance(s, ast.Assign) and isinstance(s.value, ast.Call) and dotted(s.value.func) == "reverse_view"]
     ok = len(rv) == 1 and any(v and norm_stmt(cg.ast[t].test) == "reverse" for t, v in branch_conditions(cg, cg.node_of(rv[0])) if cg.kind[t] == "test") and dotted(rv[0].targets[0]) == dotted(rv[0].value.args[0])
     ctx.ob("9.5-slots", cong, ok, "the reverse traversal must walk the reversed graph", node=(rv or [g])[0])
-    ext = [c for c in walk_body(g) if isinstance(c, ast.Call) and last_attr(c) == "extend" and isinstance(c.func.value, ast.Subscript)]
-    ctx.need(len(ext) == 2, "_bfs_one_way_diff_io: the two slot extensions were not found")
-    edge_of = {}
-    for s in stmts_of(g):
-        if isinstance(s, ast.Assign) and isinstance(s.value, ast.Subscript) and dotted(s.value.value) == "edge":
-            edge_of[dotted(s.targets[0])] = const_value(s.value.slice)
-    coupl_of = {}
-    for s in stmts_of(g):
-        if isinstance(s, ast.Assign) and isinstance(s.value, ast.Call) and last_attr(s.value) == "get" and s.value.args and dotted(s.value.args[0]) in edge_of:
-            coupl_of[dotted(s.targets[0])] = edge_of[dotted(s.value.args[0])]
+    # which end of the edge each extended pair belongs to: every key under which the pair is read from / stored into
+    # the mapping (get / setdefault / [] / store) is the same edge[i]
+    def edge_end(holder: ast.AST):
+        if not isinstance(holder, ast.Name):
+            return None
+        keys = []
+        for s in stmts_of(g):
+            if not isinstance(s, ast.Assign) or len(s.targets) != 1:
+                continue
+            t, v = s.targets[0], s.value
+            if isinstance(t, ast.Name) and t.id == holder.id:
+                if isinstance(v, ast.Call) and last_attr(v) in ("get", "setdefault") and v.args and isinstance(v.func, ast.Attribute):
+                    keys.append(v.args[0])
+                elif isinstance(v, ast.Subscript):
+                    keys.append(v.slice)
+                elif not (isinstance(v, ast.Tuple) and all(isinstance(x, ast.List) and not x.elts for x in v.elts)):
+                    return None  # bound to something that is not an entry of the mapping nor a new empty pair
+            elif isinstance(t, ast.Subscript) and isinstance(v, ast.Name) and v.id == holder.id:
+                keys.append(t.slice)
+        ends = set()
+        for k in keys:
+            for a in unfolded(g, k) or [k]:
+                ends.add(const_value(a.slice) if isinstance(a, ast.Subscript) and dotted(a.value) == "edge" and isinstance(a.slice, ast.Constant) else None)
+        return ends.pop() if len(ends) == 1 else None
+
     got = {}
     for c in ext:
-        holder = dotted(c.func.value.value)
-        got[coupl_of.get(holder)] = dotted(c.func.value.slice)
-    ctx.ob("9.5-slots", cong, got == {0: "outputs_dest_edge_index", 1: "inputs_source_edge_index"}, f"the edge origin receives the shared names in its outputs slot and the edge destination in its inputs slot; found {got}", node=ext[0], stmt="edge[0] -> outputs slot, edge[1] -> inputs slot")
+        got[edge_end(c.func.value.value)] = slots[id(c)]
+    ctx.ob("9.5-slots", cong, got == {0: (1, 0), 1: (0, 1)}, f"the edge origin receives the shared names in its outputs slot (1; 0 in the reversed graph) and the edge destination in its inputs slot (0; 1 in the reversed graph); found {{edge end: (forward, reverse) slot}} = {got}", node=ext[0], stmt="edge[0] -> outputs slot, edge[1] -> inputs slot")
     m = ctx.index.func(CR, "_merge_diff_ios")
     inter = [s for s in stmts_of(m) if isinstance(s, ast.Assign) and ((isinstance(s.value, ast.Call) and last_attr(s.value) == "intersection") or (isinstance(s.value, ast.BinOp) and isinstance(s.value.op, ast.BitAnd)))]
     ok = len(inter) == 2
@@ -388,10 +683,9 @@ def check_cache_and_traversal(ctx: Ctx) -> None:
     for mname, attr in (("add_differentiated_inputs", "_differentiated_input_names"), ("add_differentiated_outputs", "_differentiated_output_names")):
         a = ctx.index.method(DI, "Discipline", mname)
         asg_ = rules.assigns_to_self(a, attr)
-        ok = len(asg_) == 1 and (
-            any(isinstance(c, ast.Call) and last_attr(c) == "union" and any(isinstance(x, ast.Attribute) and x.attr == attr for x in ast.walk(c.func)) for c in ast.walk(asg_[0].value))
-            or any(isinstance(c, ast.BinOp) and isinstance(c.op, ast.BitOr) and any(isinstance(x, ast.Attribute) and x.attr == attr for side in (c.left, c.right) for x in ast.walk(side)) for c in ast.walk(asg_[0].value))
-        )
+        ok = len(asg_) == 1 and isinstance(asg_[0], ast.Assign) and _extends(a, asg_[0].value, attr)
+        if len(asg_) == 1 and isinstance(asg_[0], ast.AugAssign):
+            ok = isinstance(asg_[0].op, (ast.Add, ast.BitOr))  # self.attr += new / |= new keeps the old names
         ctx.ob("9.6-monotone", cname(DI, "Discipline", mname), ok, f"{mname} must extend {attr} with the union of the old names and the new ones: a later, smaller request must not drop blocks requested before", node=(asg_ or [a])[0])
 
 
@@ -417,10 +711,53 @@ def run(ctx: Ctx) -> None:
     check_cache_and_traversal(ctx)
     # copy_jacs copies every array
     f = ctx.index.method(CH, "MDOChain", "copy_jacs")
-    st = [s for s in stmts_of(f) if isinstance(s, ast.Assign) and isinstance(s.targets[0], ast.Subscript)]
-    leaf = [s for s in st if isinstance(s.value, ast.Call) and last_attr(s.value) in ("copy", "deepcopy")]
-    alias = [s for s in st if isinstance(s.value, ast.Name) and s.value.id in ("derivatives", "output_jacobian")]
-    ctx.ob("9.2-copy", cname(CH, "MDOChain", "copy_jacs"), len(leaf) >= 2 and not alias, "copy_jacs must copy every array of the nested dictionary", node=(alias or leaf or [f])[0])
+    _check_copy_jacs(ctx, f)
+
+
+def _check_copy_jacs(ctx: Ctx, f) -> None:
+    """Every value stored into the copy is new down to the arrays: ``a.copy()`` / ``deepcopy(a)`` of an array, a
+    dictionary built from such values (comprehension), or a new empty dictionary that is itself filled that way."""
+    cfg = cfg_of(f)
+    local_values: dict[str, list[ast.AST]] = {}
+    for s in stmts_of(f):
+        if isinstance(s, ast.Assign):
+            for t in s.targets:
+                if isinstance(t, ast.Name):
+                    local_values.setdefault(t.id, []).append(s.value)
+    leaves: list[ast.AST] = []
+
+    def fresh(e: ast.AST, at: int, depth: int = 0) -> bool:
+        if isinstance(e, ast.Call) and (dotted(e.func) or "").split(".")[-1] == "deepcopy" and len(e.args) == 1:
+            leaves.append(e)
+            return True
+        if isinstance(e, ast.Call) and isinstance(e.func, ast.Attribute) and e.func.attr == "copy" and not e.args:
+            # the copy of a DICTIONARY is shallow: its arrays stay shared
+            if literal_facts(cfg, at).get(f"isinstance({norm_stmt(e.func.value)}, dict)") is True:
+                return False
+            leaves.append(e)
+            return True
+        if isinstance(e, ast.DictComp):
+            return fresh(e.value, at, depth)
+        if isinstance(e, ast.IfExp):
+            return fresh(e.body, at, depth) and fresh(e.orelse, at, depth)
+        if (isinstance(e, ast.Dict) and not e.keys) or (isinstance(e, ast.Call) and dotted(e.func) == "dict" and not e.args and not e.keywords):
+            return True
+        if isinstance(e, ast.Name) and depth < 3 and e.id in local_values:
+            return all(fresh(v, at, depth + 1) for v in local_values[e.id])
+        return False
+
+    st = [s for s in stmts_of(f) if isinstance(s, ast.Assign) and any(isinstance(t, ast.Subscript) for t in s.targets)]
+    bad = [s for s in st if not fresh(s.value, cfg.node_of(s))]
+    # other ways of putting entries into a dictionary
+    merges = [c for c in walk_body(f) if isinstance(c, ast.Call) and last_attr(c) in ("update", "setdefault") and c.args]
+    bad += [c for c in merges if not fresh(c.args[-1], cfg.node_of(c))]
+    bad += [s for s in stmts_of(f) if isinstance(s, ast.AugAssign) and isinstance(s.op, ast.BitOr) and not fresh(s.value, cfg.node_of(s))]
+    rets = [r for r in walk_body(f) if isinstance(r, ast.Return) and r.value is not None]
+    bad += [r for r in rets if not fresh(r.value, cfg.node_of(r))]
+    n_leaves = len({id(x) for x in leaves})
+    whole = any(isinstance(x, ast.Call) and (dotted(x.func) or "").split(".")[-1] == "deepcopy" and x.args and dotted(x.args[0]) == "jacobian" for x in leaves)
+    # a row is a dictionary of arrays or (JacobianOperator, array) itself: both kinds are copied
+    ctx.ob("9.2-copy", cname(CH, "MDOChain", "copy_jacs"), bool(rets) and not bad and (n_leaves >= 2 or whole), "copy_jacs must copy every array of the nested dictionary", node=(bad or leaves or [f])[0])
 
 
 # ---------------------------------------------------------------------------
